@@ -99,6 +99,10 @@ def corpus():
                                               O("client_shutdown", "u1")], auth=False)
     add("c-expiry-then-late-client-close", [conn("u1", "e1", tok="exp", ahead=400), conn("u2", "e1", tok="exp", ahead=1500),
                                             O("await_expiry", "u1"), O("client_shutdown", "u1"), O("server_shutdown")], auth=True)
+    add("c-shutdown-far-expiry", [conn("u1", "e1", tok="exp", ahead=60000), conn("u2", "e1", "raw", tok="exp", ahead=60000),
+                                  conn("u3", "ep-2", tok="noexp"), O("server_shutdown")], auth=True)
+    add("c-shed-far-expiry", [conn("u1", "e1", tok="exp", ahead=60000), conn("u2", "e1", tok="exp", ahead=60000), O("shed", n=2),
+                              conn("u3", "e1", tok="exp", ahead=60000), O("client_shutdown", "u3")], auth=True)
     return cs
 
 
@@ -120,7 +124,9 @@ def gen_case(rng, cid):
         if auth:
             x = rng.random()
             if (x < 0.35 or (i == 0 and x < 0.6)) and nexp < 2:
-                tok, ahead = "exp", rng.choice([400, 600, 900, 1300])
+                # a far expiry never fires during the scenario: the connection has to end some other way (the
+                # deadline context must not shadow client close / shedding / server shutdown)
+                tok, ahead = "exp", rng.choice([400, 600, 900, 1300, 60000, 60000])
                 nexp += 1
             elif x < 0.8:
                 tok = rng.choice(["noexp", "noexp", "scoped"])
@@ -129,7 +135,7 @@ def gen_case(rng, cid):
         elif rng.random() < 0.15:
             tok = rng.choice(["exp", "bad", "noexp"])
             ahead = 400
-        conns.append((u, raw, tok == "exp"))
+        conns.append((u, raw, tok == "exp" and ahead < 5000))
         ops.append(conn(u, e, "raw" if raw else "real", tok, ahead))
         if not auth or tok in ("exp", "noexp", "scoped"):
             live.append(u)
@@ -143,7 +149,7 @@ def gen_case(rng, cid):
     rawset = {u for (u, raw, _) in conns if raw}
     expset = {u for (u, _, ex) in conns if ex}
     fin = rng.random()
-    if fin < 0.15:
+    if fin < 0.22:
         ops.append(O("server_shutdown"))
         if rng.random() < 0.5:
             ops.append(conn("u9", eps[0], "real", "noexp" if auth else None))
